@@ -4,6 +4,7 @@ use std::collections::HashMap;
 
 mod adj;
 mod container;
+mod paired;
 mod search;
 mod serde_io;
 
@@ -35,6 +36,7 @@ fn main() {
         "replay-scc" => search::replay_scc(&opts),
         "record-serde" => serde_io::record_serde(&opts),
         "replay-container" => container::replay(&opts),
+        "record-paired" => paired::record(&opts),
         "record-container" => container::record(&opts),
         "replay-untrusted" => serde_io::replay_untrusted(&opts),
         "record-untrusted" => serde_io::record_untrusted(&opts),
